@@ -162,7 +162,8 @@ def premergeF : Nat → Node → Path → Option Node → PM
           | _ => .ok (newPlainList (cs.map (·.2)), false, some root)
       | .stream =>
         match flattenWith (premergeF fuel) (cs.map (·.2)) with
-        | .error e => .error e
+        | .error .unsupported => .error .unsupported
+        | .error _ => .error .premerge          -- anything raised while the nested stream flattens is re-raised as PremergeError
         | .ok r =>
           match premergeF fuel r path into with
           | .error e => .error e
